@@ -3,6 +3,7 @@ package node
 import (
 	"context"
 	"crypto/sha256"
+	"strings"
 
 	"github.com/cosmos/cosmos-sdk/client/tx"
 	"github.com/cosmos/cosmos-sdk/crypto/keys/ed25519"
@@ -23,8 +24,12 @@ func Key(label string) cryptotypes.PrivKey {
 func KeyAddr(label string) sdk.AccAddress { return sdk.AccAddress(Key(label).PubKey().Address()) }
 
 // ValKey derives a deterministic ed25519 consensus key from a label.
-func ValKey(label string) *ed25519.PrivKey {
+func ValKey(label string) cryptotypes.PrivKey {
 	h := sha256.Sum256([]byte("opsim-valkey/" + label))
+	if strings.HasPrefix(label, "secp") {
+		// a consensus key of the other type CometBFT supports
+		return &secp256k1.PrivKey{Key: h[:]}
+	}
 	return ed25519.GenPrivKeyFromSecret(h[:])
 }
 
